@@ -14,6 +14,7 @@ template<class A> struct RealList { typedef typename A::Ch Ch; typedef typename 
 
 template<class A> static QList read_list(const typename A::QL*q){ QList l; int guard=0; for(;q&&guard<100000;q=q->next,++guard){ QItem it; const typename A::Ch*p=q->key; if(p) while(*p) it.k.push_back(cp_of<typename A::Ch>(*p++)); it.hasv=(q->value!=nullptr); if(it.hasv){ p=q->value; while(*p) it.v.push_back(cp_of<typename A::Ch>(*p++)); } l.push_back(it); } return l; }
 
+static bool g_only_malloc=false;   // long-list family: measuring call, one exact-capacity write and the allocating variant only
 template<class A> static void compose_events(Guarded&ar,const QList&l,int sp,int nb,int ep,bool allcaps){
   typedef typename A::Ch Ch; RealList<A> rl(l); std::string s0=rl.snap(); std::string jl=jq(l);
   g.set_case(J().str("driver","query/compose").raw("list",jl).num("sp",sp).num("nb",nb).num("w",A::W).done());
@@ -21,7 +22,7 @@ template<class A> static void compose_events(Guarded&ar,const QList&l,int sp,int
   g.event(J().str("e","ComposeReq").num("w",A::W).raw("list",jl).boo("sp",sp).boo("nb",nb).num("rc",rcreq).num("req",req).boo("ro",s0==rl.snap()).str("s",showq(l)).done());
   if(rcreq!=URI_SUCCESS||req<0||req>100000) return;
   // writing: every capacity (or a few), guard-page and canary layouts
-  std::vector<int> caps; if(allcaps){ for(int c=-1;c<=req+2;++c) caps.push_back(c); } else { caps={0,1,req/2,req,req+1}; }
+  std::vector<int> caps; if(allcaps){ for(int c=-1;c<=req+2;++c) caps.push_back(c); } else { caps={0,1,req/2,req,req+1}; } if(g_only_malloc) caps={req+1};
   for(int cap:caps) for(int wantw=0;wantw<2;++wantw){ if(!allcaps&&wantw==0&&cap!=req+1) continue;
     size_t cells1= cap>0? (size_t)cap:0; Ch*d1=(Ch*)ar.tail(cells1*sizeof(Ch)); for(size_t i=0;i<cells1;++i) d1[i]=(Ch)0xEE; int w1=-9,rc1=-9;
     int fault=guarded_call([&]{ rc1= (ep==0&&sp==1&&nb==1)? A::ComposeQuery(d1,rl.head(),cap,wantw?&w1:nullptr) : A::ComposeQueryEx(d1,rl.head(),cap,wantw?&w1:nullptr,sp,nb); });
@@ -60,6 +61,14 @@ VH_DRIVER(query){
     for(int len=2;len<=ML;++len){ std::vector<int> ix(len,0); while(true){ Text t; for(int i=0;i<len;++i) t.push_back(br[ix[i]]); bool hasbr=false; for(int c:t) if(c==13||c==10) hasbr=true;
         if(hasbr){ must.push_back({{t,false,{}}}); must.push_back({{T("k"),true,t}}); } int i=len-1; while(i>=0&&++ix[i]==(int)br.size()){ ix[i]=0; --i; } if(i<0) break; } }
     nmust=must.size(); lists.insert(lists.begin(),must.begin(),must.end()); }
+  // length family: the allocating variant for every size figure up to a few thousand characters (whatever threshold an implementation
+  // switches strategy at - a stack buffer, a size class - lies on the way), in shapes with zero slack: the figure is reached exactly
+  { g_only_malloc=true; long q=0; int LM= g.thorough? 1400 : 360; std::vector<int> Ls; for(int L=0;L<=LM;++L) Ls.push_back(L);
+    for(int P:{2048,4096,8192}){ if(P==8192&&!g.thorough) continue; for(int d=-2;d<=2;++d){ if(P/3+d>LM) Ls.push_back(P/3+d); if(P/6+d>LM) Ls.push_back(P/6+d); } }
+    for(int L:Ls) for(int shape=0;shape<3;++shape) for(int nb=0;nb<2;++nb){ if(nb && L>LM/2 && L<=LM) continue; ++q; Text full(L, nb? 10 : '&'); QList l;
+      if(shape==0) l={{{},true,full}}; else if(shape==1){ if(!L) continue; l={{full,false,{}}}; } else { if(!L) continue; l={{full,false,{}},{{},true,{}}}; }
+      int sp=(int)(q%2), ep=(int)(q%3); AW(true,q%2,[&]{ compose_events<ApiA>(ar,l,sp,nb,ep,false); },[&]{ compose_events<ApiW>(ar,l,sp,nb,ep,false); }); g.count("len"+std::to_string(L)+"/"+std::to_string(shape*2+nb),true); }
+    g_only_malloc=false; }
   size_t total=lists.size()*4; double keep= total*12>(size_t)want? (double)want/(total*12):1.0; long k=0; size_t li=0;
   for(auto&l:lists){ bool forced= li++<nmust; for(int sp=0;sp<2;++sp) for(int nb=0;nb<2;++nb){ ++k; if(!forced && keep<1.0 && (R.next()%1000000)>=keep*1000000) continue; bool allcaps = (k%5==0)||l.size()<=1; int ep=(int)(k%3);
     if(forced) allcaps=false;
